@@ -3,7 +3,7 @@
 use crate::engine::*;
 use crate::httpdrv::*;
 
-pub const RULE: &str = "histories vec(op) of announce/scrape/clean/observe over 4 torrents, 3 source kinds (v4, v6, v4-mapped) x up to 4 IPs x 6 ports, HTTP option shapes (numwant None/Some(0)/../usize::MAX, left usize, event incl. Empty), scrapes with repeated hashes and longer than max_scrape_torrents in {0,1,3,100}, cleans through the real clean() under the mock clock; interpreted against aquatic_http's TorrentMaps (verif_api) and reference model S after every step, torrent count compared after every clean; non-trivial = history crosses the inline(<=4)<->heap switch, flips a seeder flag, stops an existing key, or scrapes past the limit / a repeated hash; distinct = distinct serialised history";
+pub const RULE: &str = "(hist) histories vec(op) of announce/scrape/clean/observe over 4 torrents, 3 source kinds (v4, v6, v4-mapped) x up to 4 IPs x 6 ports, HTTP option shapes (numwant None/Some(0)/../usize::MAX, left usize, event incl. Empty), scrapes with repeated hashes and longer than max_scrape_torrents in {0,1,3,100}, cleans through the real clean() under the mock clock; interpreted against aquatic_http's TorrentMaps (verif_api) and reference model S after every step, torrent count compared after every clean; non-trivial = history crosses the inline(<=4)<->heap switch, flips a seeder flag, stops an existing key, or scrapes past the limit / a repeated hash; distinct = distinct serialised history; (big-swarm) the same interpreter and oracle on one torrent with a key domain of 50 IPs x 40 ports per source kind, 1600-3200 (quick) / 3000-6000 (thorough) operations and lifetimes up to 3000 s, so that swarms exceed 255 peers and 255 seeders per family and replies are limited far below the swarm size";
 
 pub fn prop(case: &HttpCase) -> CaseResult {
     let mut o = run_http_case(case, false)?;
@@ -53,6 +53,11 @@ pub fn run(ctx: &mut Ctx) {
     ] {
         ctx.require_label("hist", l, 0.01);
     }
+    // swarms of hundreds of peers in one torrent (counters beyond u8, replies far below swarm size)
+    let big = HttpGen { max_ops: ctx.tier.pick(3200, 6000), ips: 50, ports: 40, max_ttl: 3000, ..p };
+    ctx.run_prop("big-swarm", ctx.tier.pick(240, 5000), move || crate::httpdrv::http_big_swarm(big), prop);
+    ctx.require_label("big-swarm", "swarm>255", 0.5);
+    ctx.require_label("big-swarm", "seeders>255", 0.03);
 }
 
 pub fn replay(path: &str, _sub: &str, case: serde_json::Value) -> i32 {
